@@ -1,0 +1,112 @@
+//! Verification hooks for `p2p::shrex::pool_tracker` (compiled only with
+//! `--cfg eigerco_lumina_verif`).
+//!
+//! A thin public facade over the real [`PoolTracker`] running on an [`InMemoryStore`]; the
+//! harness owns the store (it inserts headers through the public `Store` API) and the clock
+//! (a paused tokio runtime).
+
+use super::*;
+use crate::store::InMemoryStore;
+
+/// Public mirror of `shrex::Event`.
+#[derive(Debug, Clone, PartialEq, Eq)]
+pub enum VerifPoolEvent {
+    /// `Event::SchedulePendingRequests`
+    SchedulePendingRequests,
+    /// `Event::AddPeers`
+    AddPeers(Vec<PeerId>),
+    /// `Event::BlockPeers`
+    BlockPeers(Vec<PeerId>),
+}
+
+/// Public mirror of `GetPoolError`.
+#[derive(Debug, Clone, Copy, PartialEq, Eq)]
+pub enum VerifGetPoolError {
+    /// `GetPoolError::CandidatesNotValidated`
+    CandidatesNotValidated,
+    /// `GetPoolError::HeightTooOld`
+    HeightTooOld,
+    /// `GetPoolError::HeightNotTracked`
+    HeightNotTracked,
+}
+
+/// The real [`PoolTracker`] over an [`InMemoryStore`].
+pub struct PoolTrackerSim {
+    tracker: PoolTracker<InMemoryStore>,
+}
+
+impl PoolTrackerSim {
+    /// `PoolTracker::new(store)`; nothing is polled yet.
+    pub fn new(store: Arc<InMemoryStore>) -> Self {
+        PoolTrackerSim {
+            tracker: PoolTracker::new(store),
+        }
+    }
+
+    /// Deliver a ShrEx/Sub notification exactly as `shrex::Behaviour::on_shrex_sub_event` does:
+    /// the encoded `RecentEdsNotification` goes through `EdsNotification::deserialize_and_validate`
+    /// and, when valid, to `add_peer_for_hash`. Returns whether it passed validation.
+    pub fn notify_encoded(&mut self, peer: PeerId, data: &[u8]) -> bool {
+        match EdsNotification::deserialize_and_validate(data) {
+            Ok(EdsNotification { height, data_hash }) => {
+                self.tracker.add_peer_for_hash(peer, data_hash, height);
+                true
+            }
+            Err(_) => false,
+        }
+    }
+
+    /// Encode `(height, data_hash)` as a `RecentEdsNotification` and deliver it.
+    pub fn notify(&mut self, peer: PeerId, height: u64, data_hash: [u8; 32]) -> bool {
+        let msg = RecentEdsNotification {
+            height,
+            data_hash: data_hash.to_vec(),
+        };
+        self.notify_encoded(peer, &msg.encode_to_vec())
+    }
+
+    /// `PoolTracker::remove_peer`
+    pub fn remove_peer(&mut self, peer: &PeerId) {
+        self.tracker.remove_peer(peer)
+    }
+
+    /// `PoolTracker::get_pool`, collected.
+    pub fn get_pool(&self, height: u64) -> Result<Vec<PeerId>, VerifGetPoolError> {
+        match self.tracker.get_pool(height) {
+            Ok(peers) => Ok(peers.copied().collect()),
+            Err(GetPoolError::CandidatesNotValidated) => {
+                Err(VerifGetPoolError::CandidatesNotValidated)
+            }
+            Err(GetPoolError::HeightTooOld) => Err(VerifGetPoolError::HeightTooOld),
+            Err(GetPoolError::HeightNotTracked) => Err(VerifGetPoolError::HeightNotTracked),
+        }
+    }
+
+    /// `PoolTracker::poll`
+    pub fn poll(&mut self, cx: &mut Context<'_>) -> Poll<Option<VerifPoolEvent>> {
+        self.tracker.poll(cx).map(|ev| {
+            ev.map(|ev| match ev {
+                Event::SchedulePendingRequests => VerifPoolEvent::SchedulePendingRequests,
+                Event::AddPeers(p) => VerifPoolEvent::AddPeers(p),
+                Event::BlockPeers(p) => VerifPoolEvent::BlockPeers(p),
+            })
+        })
+    }
+
+    /// Diagnostic only: the tracker's `subjective_head`.
+    pub fn subjective_head(&self) -> Option<u64> {
+        self.tracker.subjective_head
+    }
+
+    /// Diagnostic only: heights that currently have a pool, with `true` when validated.
+    pub fn tracked_heights(&self) -> Vec<(u64, bool)> {
+        let mut v: Vec<(u64, bool)> = self
+            .tracker
+            .hash_pools
+            .iter()
+            .map(|(h, p)| (*h, matches!(p, PeerPool::Validated(_))))
+            .collect();
+        v.sort_unstable();
+        v
+    }
+}
